@@ -1,13 +1,36 @@
+// Harness for property C06: block execution is deterministic and the header
+// commitments (UTXO root / set size / EVM root / ETX-set root) describe the stored state.
+//
+// It drives the REAL go-quai zone stack (worker, HeaderChain, StateProcessor.Process,
+// BlockValidator.ValidateState, Finalize/TrimBlock, rawdb, MuHash multiset) through the
+// `verif` mini node on memorydb, leveldb and pebble side by side, and
+//   - re-executes every block several times under different GOMAXPROCS (determinism monitor),
+//   - after every appended block scans the 'ut' and 'cl' prefixes of each database and compares the
+//     MuHash of the live entries / their number with the stored multiset, the header UTXORoot and the
+//     stored set size (commitment monitor), and reopens the state at the header roots,
+//   - emits every chain as a Coq case (batch operations, trim candidates, observed content, size,
+//     root-matches flag per block) for the model in coq/Model/C06.v.
 package main
 
 import (
 	"bytes"
+	"crypto/ecdsa"
+	"crypto/sha256"
+	"encoding/binary"
+	"encoding/hex"
 	"fmt"
 	"math/big"
 	"os"
+	"path/filepath"
+	"runtime"
+	"runtime/debug"
+	"sort"
+	"strings"
+	"time"
 
 	"github.com/btcsuite/btcd/btcec/v2"
 	"github.com/btcsuite/btcd/btcec/v2/schnorr"
+	"github.com/btcsuite/btcd/btcec/v2/schnorr/musig2"
 	"github.com/dominant-strategies/go-quai/common"
 	"github.com/dominant-strategies/go-quai/core"
 	"github.com/dominant-strategies/go-quai/core/rawdb"
@@ -15,125 +38,1317 @@ import (
 	"github.com/dominant-strategies/go-quai/crypto"
 	"github.com/dominant-strategies/go-quai/crypto/multiset"
 	"github.com/dominant-strategies/go-quai/ethdb"
+	"github.com/dominant-strategies/go-quai/ethdb/leveldb"
+	"github.com/dominant-strategies/go-quai/ethdb/memorydb"
+	"github.com/dominant-strategies/go-quai/ethdb/pebble"
 	"github.com/dominant-strategies/go-quai/log"
 	"github.com/dominant-strategies/go-quai/params"
+	"github.com/dominant-strategies/go-quai/trie"
+	"google.golang.org/protobuf/proto"
 	"verifharness/hlib"
 )
 
-func grind(r *hlib.Rng, loc common.Location, qi bool) (*btcec.PrivateKey, common.Address) {
+var (
+	loc      = common.Location{0, 0}
+	logger   *log.Logger
+	verbose  = os.Getenv("C06_VERBOSE") != ""
+	rep      *hlib.Report
+	trimDeps = map[uint8]uint64{0: 3, 1: 4, 2: 5, 3: 6, 4: 7, 5: 8}
+)
+
+const (
+	sigF5       = "trim-and-spend-same-block:double-removal"
+	sigRootScan = "utxo-root-differs-from-db-scan"
+	sigRootHdr  = "stored-multiset-differs-from-header-utxo-root"
+	sigSize     = "utxo-set-size-differs-from-db-scan"
+	sigDet      = "process-nondeterministic"
+	sigBackend  = "process-backend-dependent"
+	sigReject   = "own-block-rejected"
+	sigState    = "state-roots-do-not-open"
+	sigScanDiff = "db-content-backend-dependent"
+	sigMuLaw    = "multiset-not-a-commutative-group-action"
+	sigPanic    = "panic-in-code-under-test"
+)
+
+// ---------------- actors ----------------
+
+type actors struct {
+	qiKeys    []*btcec.PrivateKey
+	qiAddrs   []common.Address
+	quaiKeys  []*ecdsa.PrivateKey
+	quaiAddrs []common.Address
+	fQi       common.Address // Qi address in zone 0-1 (foreign sender)
+	fQuai     common.Address // Quai address in zone 0-1
+}
+
+func grindQi(r *hlib.Rng) (*btcec.PrivateKey, common.Address) {
 	for {
 		k, _ := btcec.PrivKeyFromBytes(r.Bytes(32))
-		pub := k.PubKey().SerializeUncompressed()
-		a := crypto.PubkeyBytesToAddress(pub, loc)
-		if !a.Location().Equal(loc) {
+		a := crypto.PubkeyBytesToAddress(k.PubKey().SerializeUncompressed(), loc)
+		if _, err := a.InternalAndQiAddress(); err == nil && a.Location().Equal(loc) {
+			return k, a
+		}
+	}
+}
+func grindQuai(r *hlib.Rng) (*ecdsa.PrivateKey, common.Address) {
+	for {
+		k, err := crypto.ToECDSA(r.Bytes(32))
+		if err != nil {
 			continue
 		}
-		if a.IsInQiLedgerScope() == qi {
+		a := crypto.PubkeyToAddress(k.PublicKey, loc)
+		if _, err := a.InternalAndQuaiAddress(); err == nil && a.Location().Equal(loc) {
 			return k, a
 		}
 	}
 }
 
-func scan(db ethdb.Database) (*multiset.MultiSet, int) {
+func newActors() *actors {
+	r := hlib.NewRng(0xC06) // fixed: the same keys in every run
+	a := &actors{}
+	for i := 0; i < 6; i++ {
+		k, ad := grindQi(r)
+		a.qiKeys, a.qiAddrs = append(a.qiKeys, k), append(a.qiAddrs, ad)
+	}
+	for i := 0; i < 2; i++ {
+		k, ad := grindQuai(r)
+		a.quaiKeys, a.quaiAddrs = append(a.quaiKeys, k), append(a.quaiAddrs, ad)
+	}
+	a.fQi = common.HexToAddress("0x0180000000000000000000000000000000000007", common.Location{0, 1})
+	a.fQuai = common.HexToAddress("0x0100000000000000000000000000000000000007", common.Location{0, 1})
+	return a
+}
+func (a *actors) keyFor(addr []byte) int {
+	for i, x := range a.qiAddrs {
+		if bytes.Equal(x.Bytes(), addr) {
+			return i
+		}
+	}
+	return -1
+}
+
+// ---------------- nodes ----------------
+
+type locMem struct{ *memorydb.Database }
+
+func (l locMem) Location() common.Location { return loc }
+
+type node struct {
+	name string
+	db   ethdb.Database
+	z    *core.VerifZone
+	dir  string
+	dbl  []common.Hash // element hashes removed twice from this node's accumulator so far (finding F5)
+}
+
+func newNode(kind string, tmp string, idx int, a *actors) (*node, error) {
+	n := &node{name: kind}
+	switch kind {
+	case "memorydb":
+		// memorydb.Database.Location() returns nil, so a block re-read from it (block cache miss) decodes every
+		// in-zone address as external; a production store is opened with the node location. Give it one.
+		n.db = rawdb.NewDatabase(locMem{memorydb.New(logger)})
+	case "leveldb":
+		n.dir = filepath.Join(tmp, fmt.Sprintf("ldb%d", idx))
+		d, err := leveldb.New(n.dir, 16, 16, "", false, logger, loc)
+		if err != nil {
+			return nil, err
+		}
+		n.db = rawdb.NewDatabase(d)
+	case "pebble":
+		n.dir = filepath.Join(tmp, fmt.Sprintf("peb%d", idx))
+		d, err := pebble.New(n.dir, 16, 16, "", false, logger, loc)
+		if err != nil {
+			return nil, err
+		}
+		n.db = rawdb.NewDatabase(d)
+	}
+	cb, qi := a.quaiAddrs[1], a.qiAddrs[5]
+	z, err := core.VerifNewZone(n.db, core.VerifZoneOptions{Location: loc, QuaiCoinbase: cb, QiCoinbase: qi, GenesisTime: 1000}, logger)
+	if err != nil {
+		return nil, err
+	}
+	n.z = z
+	return n, nil
+}
+func (n *node) close() {
+	defer func() { recover() }()
+	n.z.Close()
+	n.db.Close()
+	if n.dir != "" {
+		os.RemoveAll(n.dir)
+	}
+}
+
+// ---------------- database content ----------------
+
+type entry struct {
+	key  []byte
+	val  []byte
+	hash common.Hash // the element the multiset holds for this entry
+	ut   bool
+	utxo *types.UtxoEntry
+}
+
+func elemHash(key, val []byte) (common.Hash, *types.UtxoEntry, bool) {
+	if len(key) == rawdb.UtxoKeyLength && bytes.HasPrefix(key, rawdb.UtxoPrefix) {
+		th, ix, err := rawdb.ReverseUtxoKey(key)
+		if err != nil {
+			return common.Hash{}, nil, false
+		}
+		p := new(types.ProtoTxOut)
+		if err := proto.Unmarshal(val, p); err != nil {
+			return common.Hash{}, nil, false
+		}
+		u := new(types.UtxoEntry)
+		if err := u.ProtoDecode(p); err != nil {
+			return common.Hash{}, nil, false
+		}
+		return types.UTXOHash(th, ix, u), u, true
+	}
+	if len(key) == rawdb.CoinbaseLockupKeyLength && bytes.HasPrefix(key, rawdb.CoinbaseLockupPrefix) {
+		owner, miner, lb, epoch, err := rawdb.ReverseCoinbaseLockupKey(key, loc)
+		if err != nil || len(val) < 38 {
+			return common.Hash{}, nil, false
+		}
+		amount := new(big.Int).SetBytes(val[:32])
+		height := binary.BigEndian.Uint32(val[32:36])
+		elements := binary.BigEndian.Uint16(val[36:38])
+		delegate := common.Zero
+		if len(val) == 58 {
+			delegate = common.BytesToAddress(val[38:], loc)
+		}
+		return types.CoinbaseLockupHash(owner, miner, delegate, lb, epoch, amount, height, elements), nil, true
+	}
+	return common.Hash{}, nil, false
+}
+
+func isSetKey(key []byte) bool {
+	return (len(key) == rawdb.UtxoKeyLength && bytes.HasPrefix(key, rawdb.UtxoPrefix)) ||
+		(len(key) == rawdb.CoinbaseLockupKeyLength && bytes.HasPrefix(key, rawdb.CoinbaseLockupPrefix))
+}
+
+// scan = full iterator scan of the 'ut' and 'cl' prefixes (sorted by key: iterator order)
+func scan(db ethdb.Database) []entry {
+	var out []entry
+	for _, pfx := range [][]byte{rawdb.CoinbaseLockupPrefix, rawdb.UtxoPrefix} {
+		it := db.NewIterator(pfx, nil)
+		for it.Next() {
+			k := common.CopyBytes(it.Key())
+			if !isSetKey(k) {
+				continue
+			}
+			v := common.CopyBytes(it.Value())
+			h, u, ok := elemHash(k, v)
+			if !ok {
+				continue
+			}
+			out = append(out, entry{key: k, val: v, hash: h, ut: k[0] == 'u', utxo: u})
+		}
+		it.Release()
+	}
+	return out
+}
+
+func muOf(es []entry, removed []common.Hash) common.Hash {
 	ms := multiset.New()
-	n := 0
-	it := db.NewIterator(rawdb.UtxoPrefix, nil)
-	for it.Next() {
-		if len(it.Key()) != rawdb.UtxoKeyLength {
+	for _, e := range es {
+		ms.Add(e.hash.Bytes())
+	}
+	for _, h := range removed {
+		ms.Remove(h.Bytes())
+	}
+	return ms.Hash()
+}
+
+// ---------------- recording the batch of Process ----------------
+
+type bop struct {
+	del bool
+	key []byte
+	val []byte
+}
+type recorder struct {
+	ops      []bop // operations on 'ut'/'cl' keys, in order
+	tutxoAt  int   // len(ops) when the trimmed-utxos record was written (-1: never)
+	allKeys  []string
+	setBytes int
+}
+
+func (r *recorder) Put(key, value []byte) error {
+	r.allKeys = append(r.allKeys, "P"+string(key))
+	if bytes.HasPrefix(key, []byte("tutxo")) && r.tutxoAt < 0 {
+		r.tutxoAt = len(r.ops)
+	}
+	if isSetKey(key) {
+		r.ops = append(r.ops, bop{false, common.CopyBytes(key), common.CopyBytes(value)})
+	}
+	return nil
+}
+func (r *recorder) Logger() *log.Logger { return logger }
+func (r *recorder) Delete(key []byte) error {
+	r.allKeys = append(r.allKeys, "D"+string(key))
+	if isSetKey(key) {
+		r.ops = append(r.ops, bop{true, common.CopyBytes(key), nil})
+	}
+	return nil
+}
+
+// ---------------- one Process run and its observables ----------------
+
+type procObs struct {
+	err       string
+	receipts  common.Hash
+	etxs      common.Hash
+	gas       uint64
+	stateUsed uint64
+	setSize   uint64
+	muhash    common.Hash
+	evmRoot   common.Hash
+	etxRoot   common.Hash
+	trieSize  string
+	validate  string
+	delta     common.Hash // digest of the final 'ut'/'cl' effect of the batch (sorted by key)
+	keyset    common.Hash // digest of the sorted set of all keys the batch touches
+	rec       *recorder
+}
+
+func (o *procObs) fingerprint() string {
+	return fmt.Sprintf("%s|%x|%x|%d|%d|%d|%x|%x|%x|%s|%s|%x|%x", o.err, o.receipts, o.etxs, o.gas, o.stateUsed, o.setSize, o.muhash, o.evmRoot, o.etxRoot, o.trieSize, o.validate, o.delta, o.keyset)
+}
+
+func errClass(err error) string {
+	if err == nil {
+		return ""
+	}
+	s := err.Error()
+	if i := strings.IndexAny(s, "(:["); i > 0 {
+		s = s[:i]
+	}
+	return strings.TrimSpace(s)
+}
+
+func processOnce(n *node, block *types.WorkObject) (o *procObs) {
+	o = &procObs{}
+	defer func() {
+		if r := recover(); r != nil {
+			o.err = fmt.Sprintf("PANIC %v", r)
+			if verbose {
+				fmt.Fprintln(os.Stderr, string(debug.Stack()))
+			}
+		}
+	}()
+	batch := n.db.NewBatch()
+	receipts, etxs, _, statedb, usedGas, usedState, setSize, ms, _, err := n.z.Processor().Process(block, batch)
+	if err != nil {
+		o.err = "process: " + errClass(err)
+		if verbose {
+			fmt.Fprintln(os.Stderr, "process error:", err)
+		}
+		return
+	}
+	o.receipts = types.DeriveSha(receipts, trie.NewStackTrie(nil))
+	o.etxs = types.DeriveSha(types.Transactions(etxs), trie.NewStackTrie(nil))
+	o.gas, o.stateUsed, o.setSize = usedGas, usedState, setSize
+	o.muhash = ms.Hash()
+	if verr := n.z.Validator().ValidateState(block, statedb, receipts, etxs, ms, usedGas, usedState); verr != nil {
+		o.validate = errClass(verr)
+		if verbose {
+			fmt.Fprintln(os.Stderr, "validate error:", verr)
+		}
+	}
+	o.evmRoot = statedb.IntermediateRoot(true)
+	o.etxRoot = statedb.ETXRoot()
+	o.trieSize = statedb.GetQuaiTrieSize().String()
+	rec := &recorder{tutxoAt: -1}
+	batch.Replay(rec)
+	o.rec = rec
+	final := map[string]string{}
+	for _, op := range rec.ops {
+		if op.del {
+			final[string(op.key)] = "D"
+		} else {
+			final[string(op.key)] = "P" + string(op.val)
+		}
+	}
+	h := sha256.New()
+	for _, k := range hlib.SortedKeys(final) {
+		h.Write([]byte(k))
+		h.Write([]byte{0})
+		h.Write([]byte(final[k]))
+		h.Write([]byte{1})
+	}
+	copy(o.delta[:], h.Sum(nil))
+	ks := map[string]struct{}{}
+	for _, k := range rec.allKeys {
+		ks[k[1:]] = struct{}{}
+	}
+	h = sha256.New()
+	for _, k := range hlib.SortedKeys(ks) {
+		h.Write([]byte(k))
+		h.Write([]byte{0})
+	}
+	copy(o.keyset[:], h.Sum(nil))
+	batch.Reset()
+	return
+}
+
+// ---------------- chain specification / case ----------------
+
+type ChainSpec struct {
+	ID      uint64   `json:"id"`
+	Seed    uint64   `json:"seed"`
+	Kind    string   `json:"kind"` // f5 | clean | random | lockup
+	Len     int      `json:"len"`
+	Primary int      `json:"primary"` // which backend assembles
+	Kinds   []string `json:"backends"`
+	Reps    int      `json:"reps"` // Process repetitions per block and backend
+}
+
+type indexer struct {
+	keys  map[string]int
+	elems map[common.Hash]int
+}
+
+func (ix *indexer) key(k []byte) int {
+	if v, ok := ix.keys[string(k)]; ok {
+		return v
+	}
+	v := len(ix.keys) + 1
+	ix.keys[string(k)] = v
+	return v
+}
+func (ix *indexer) elem(h common.Hash) int {
+	if v, ok := ix.elems[h]; ok {
+		return v
+	}
+	v := len(ix.elems) + 1
+	ix.elems[h] = v
+	return v
+}
+
+type chainResult struct {
+	blocks   []string // Coq blk terms
+	f5Blocks int
+	trimView string // observed: "ParentDb" | "AfterOps" | "" (undetermined)
+	nBlocks  int
+	broken   string
+}
+
+var gomax = []int{1, 4, 16}
+
+func failCase(sig, what string, spec ChainSpec, blockNo uint64, extra string) {
+	c := map[string]any{"id": spec.ID, "seed": spec.Seed, "kind": spec.Kind, "len": spec.Len, "primary": spec.Primary, "backends": spec.Kinds, "reps": spec.Reps, "at_block": blockNo, "detail": extra}
+	rep.Fail(sig, what, c)
+}
+
+// ---------------- scenario ----------------
+
+type scenario struct {
+	r      *hlib.Rng
+	a      *actors
+	spec   ChainSpec
+	height map[string]uint64 // key -> block number that created it
+	used   map[string]bool   // outpoints already put into a pool tx
+	nonce  map[int]uint64
+	funded map[int]bool
+	contract *common.Address
+	deployed bool
+	minerSet bool
+	preferQi bool
+	lockByte uint8
+}
+
+func (s *scenario) foreignQiEtx(to common.Address, den uint8, idx uint16) *types.Transaction {
+	oh := common.BytesToHash(s.r.Bytes(32))
+	return types.NewTx(&types.ExternalTx{To: &to, Sender: s.a.fQi, Value: big.NewInt(int64(den)), EtxType: types.DefaultType, OriginatingTxHash: oh, ETXIndex: idx, Gas: params.TxGas})
+}
+func (s *scenario) coinbaseEtx(to common.Address, value int64, data []byte, idx uint16) *types.Transaction {
+	oh := common.BytesToHash(s.r.Bytes(32))
+	return types.NewTx(&types.ExternalTx{To: &to, Sender: to, Value: big.NewInt(value), EtxType: types.CoinbaseType, OriginatingTxHash: oh, ETXIndex: idx, Gas: params.TxGas, Data: data})
+}
+func (s *scenario) conversionEtx(from, to common.Address, value *big.Int, idx uint16) *types.Transaction {
+	oh := common.BytesToHash(s.r.Bytes(32))
+	return types.NewTx(&types.ExternalTx{To: &to, Sender: from, Value: value, EtxType: types.ConversionType, OriginatingTxHash: oh, ETXIndex: idx, Gas: 400000})
+}
+func (s *scenario) fundEtx(to common.Address, value *big.Int, idx uint16) *types.Transaction {
+	oh := common.BytesToHash(s.r.Bytes(32))
+	return types.NewTx(&types.ExternalTx{To: &to, Sender: s.a.fQuai, Value: value, EtxType: types.DefaultType, OriginatingTxHash: oh, ETXIndex: idx, Gas: 600000}) // enough gas for new-account creation
+}
+
+// inbound ETXs the "dominant chain" delivers to the child of the block just appended
+func (s *scenario) inbound(blockNo uint64) types.Transactions {
+	var out types.Transactions
+	r := s.r
+	idx := uint16(0)
+	add := func(t *types.Transaction) { out = append(out, t); idx++ }
+	switch s.spec.Kind {
+	case "f5":
+		// block 1 delivers one denomination-5 and one denomination-8 output to key 0; nothing else small
+		if blockNo == 1 {
+			add(s.foreignQiEtx(s.a.qiAddrs[0], 5, idx))
+			add(s.foreignQiEtx(s.a.qiAddrs[0], 8, idx))
+			add(s.foreignQiEtx(s.a.qiAddrs[1], 9, idx))
+		}
+		return out
+	case "clean":
+		// only denominations above MaxTrimDenomination are ever spent; small ones are created and left to be trimmed
+		n := r.Intn(4)
+		for i := 0; i < n; i++ {
+			den := uint8(r.Intn(15))
+			add(s.foreignQiEtx(s.a.qiAddrs[r.Intn(len(s.a.qiAddrs))], den, idx))
+		}
+		return out
+	}
+	n := r.Pick(2, 3, 3, 2, 1)
+	for i := 0; i < n; i++ {
+		switch r.Pick(8, 3, 1, 2, 2, 2, 2) {
+		case 0: // regular Qi ETX from another zone: unlocked UTXO of any denomination (small ones are trimmable)
+			den := uint8(r.Intn(15))
+			if r.Chance(50) {
+				den = uint8(r.Intn(int(types.MaxTrimDenomination) + 2))
+			}
+			add(s.foreignQiEtx(s.a.qiAddrs[r.Intn(len(s.a.qiAddrs))], den, idx))
+		case 1: // Qi coinbase, plain layout: locked UTXOs of the decomposition
+			data := append([]byte{byte(r.Intn(4))}, r.Bytes(32)...)
+			add(s.coinbaseEtx(s.a.qiAddrs[r.Intn(len(s.a.qiAddrs))], int64(1+r.Intn(30000)), data, idx))
+		case 2: // Quai coinbase, plain layout
+			data := append([]byte{byte(r.Intn(4))}, r.Bytes(32)...)
+			add(s.coinbaseEtx(s.a.quaiAddrs[r.Intn(len(s.a.quaiAddrs))], int64(1+r.Intn(1000000)), data, idx))
+		case 3: // coinbase with a contract-lockup data layout (Qi or Quai beneficiary)
+			var caddr common.Address
+			if s.contract != nil && s.deployed && r.Chance(85) {
+				caddr = *s.contract
+			} else {
+				caddr = s.a.quaiAddrs[r.Intn(len(s.a.quaiAddrs))] // an account without code: reward is lost
+			}
+			data := append([]byte{byte(r.Intn(4))}, caddr.Bytes()...)
+			if r.Bool() {
+				data = append(data, s.a.quaiAddrs[r.Intn(len(s.a.quaiAddrs))].Bytes()...) // delegate
+			}
+			data = append(data, r.Bytes(32)...)
+			var to common.Address
+			if r.Bool() {
+				to = s.a.qiAddrs[r.Intn(2)]
+			} else {
+				to = s.a.quaiAddrs[r.Intn(len(s.a.quaiAddrs))]
+			}
+			add(s.coinbaseEtx(to, int64(1+r.Intn(50000)), data, idx))
+		case 4: // Quai -> Qi conversion (sender in the same zone): locked UTXOs
+			v := big.NewInt(int64(1 + r.Intn(40000)))
+			add(s.conversionEtx(s.a.quaiAddrs[r.Intn(len(s.a.quaiAddrs))], s.a.qiAddrs[r.Intn(len(s.a.qiAddrs))], v, idx))
+		case 5: // fund a Quai account (plain inbound transfer)
+			i := r.Intn(len(s.a.quaiAddrs))
+			v := new(big.Int).Mul(big.NewInt(int64(10000+r.Intn(50000))), big.NewInt(1e18))
+			add(s.fundEtx(s.a.quaiAddrs[i], v, idx))
+			s.funded[i] = true
+		case 6: // malformed coinbase data length: reward lost, no entry
+			data := append([]byte{byte(r.Intn(4))}, r.Bytes(5+r.Intn(20))...)
+			add(s.coinbaseEtx(s.a.qiAddrs[r.Intn(len(s.a.qiAddrs))], int64(1+r.Intn(30000)), data, idx))
+		}
+	}
+	return out
+}
+
+func signQi(qt *types.QiTx, keys []*btcec.PrivateKey, signer types.Signer) (*types.Transaction, error) {
+	tx := types.NewTx(qt)
+	digest := signer.Hash(tx)
+	if len(keys) == 1 {
+		sig, err := schnorr.Sign(keys[0], digest[:])
+		if err != nil {
+			return nil, err
+		}
+		qt.Signature = sig
+		return types.NewTx(qt), nil
+	}
+	pubs := make([]*btcec.PublicKey, len(keys))
+	for i, k := range keys {
+		pubs[i] = k.PubKey()
+	}
+	sess := make([]*musig2.Session, len(keys))
+	for i, k := range keys {
+		c, err := musig2.NewContext(k, false, musig2.WithKnownSigners(pubs))
+		if err != nil {
+			return nil, err
+		}
+		sess[i], err = c.NewSession()
+		if err != nil {
+			return nil, err
+		}
+	}
+	for i := range sess {
+		for j := range sess {
+			if i != j {
+				if _, err := sess[i].RegisterPubNonce(sess[j].PublicNonce()); err != nil {
+					return nil, err
+				}
+			}
+		}
+	}
+	for i := range sess {
+		ps, err := sess[i].Sign(digest)
+		if err != nil {
+			return nil, err
+		}
+		if i != 0 {
+			if _, err := sess[0].CombineSig(ps); err != nil {
+				return nil, err
+			}
+		}
+	}
+	qt.Signature = sess[0].FinalSig()
+	return types.NewTx(qt), nil
+}
+
+type coin struct {
+	e   entry
+	th  common.Hash
+	ix  uint16
+	key int // owner key index
+}
+
+// pool transactions for the next block, chosen from the content of the primary's database
+func (s *scenario) poolTxs(n *node, content []entry, nextNo uint64) []*types.Transaction {
+	var txs []*types.Transaction
+	r := s.r
+	chainID := n.z.Config.ChainID
+	signer := types.NewSigner(chainID, loc)
+	var coins []coin
+	for _, e := range content {
+		if !e.ut || s.used[string(e.key)] {
 			continue
 		}
-		th, ix, _ := rawdb.ReverseUtxoKey(it.Key())
-		u := rawdb.GetUTXO(db, th, ix)
-		ms.Add(types.UTXOHash(th, ix, u).Bytes())
-		n++
+		ki := s.a.keyFor(e.utxo.Address)
+		if ki < 0 {
+			continue
+		}
+		if e.utxo.Lock != nil && e.utxo.Lock.Sign() != 0 && e.utxo.Lock.Uint64() > nextNo-1 { // the pool checks locks against the current head
+			continue
+		}
+		th, ix, _ := rawdb.ReverseUtxoKey(e.key)
+		coins = append(coins, coin{e, th, ix, ki})
 	}
-	it.Release()
-	return ms, n
+	otherAddr := func(not map[int]bool) (int, bool) {
+		for t := 0; t < 12; t++ {
+			i := r.Intn(len(s.a.qiAddrs))
+			if !not[i] {
+				return i, true
+			}
+		}
+		return 0, false
+	}
+	mk := func(ins []coin, outs []uint8) {
+		qt := &types.QiTx{ChainID: chainID}
+		not := map[int]bool{}
+		var keys []*btcec.PrivateKey
+		for _, c := range ins {
+			qt.TxIn = append(qt.TxIn, types.TxIn{PreviousOutPoint: types.OutPoint{TxHash: c.th, Index: c.ix}, PubKey: s.a.qiKeys[c.key].PubKey().SerializeUncompressed()})
+			not[c.key] = true
+			keys = append(keys, s.a.qiKeys[c.key])
+		}
+		for _, d := range outs {
+			i, ok := otherAddr(not)
+			if !ok {
+				return
+			}
+			not[i] = true
+			qt.TxOut = append(qt.TxOut, types.TxOut{Denomination: d, Address: s.a.qiAddrs[i].Bytes(), Lock: big.NewInt(0)})
+		}
+		tx, err := signQi(qt, keys, signer)
+		if err != nil {
+			rep.Count("qi_sign_error")
+			return
+		}
+		for _, c := range ins {
+			s.used[string(c.e.key)] = true
+		}
+		txs = append(txs, tx)
+	}
+	big6 := func() (coin, bool) { // an unused coin of denomination >= 7
+		for t := 0; t < 20 && len(coins) > 0; t++ {
+			c := coins[r.Intn(len(coins))]
+			if c.e.utxo.Denomination >= 7 && !s.used[string(c.e.key)] {
+				return c, true
+			}
+		}
+		return coin{}, false
+	}
+	switch s.spec.Kind {
+	case "f5":
+		// spend the denomination-5 output exactly in the block that trims its creation height
+		for _, c := range coins {
+			if c.e.utxo.Denomination == 5 && s.height[string(c.e.key)]+trimDeps[5] == nextNo {
+				mk([]coin{c}, []uint8{4})
+			}
+		}
+		return txs
+	case "clean":
+		if c, ok := big6(); ok && r.Chance(70) {
+			mk([]coin{c}, []uint8{c.e.utxo.Denomination - 1})
+		}
+		return txs
+	}
+	nTx := r.Pick(3, 4, 3)
+	for i := 0; i < nTx; i++ {
+		switch r.Pick(3, 3, 4, 2) {
+		case 0: // 1 -> 1
+			if c, ok := big6(); ok {
+				mk([]coin{c}, []uint8{c.e.utxo.Denomination - 1})
+			}
+		case 1: // 1 -> 2 (split)
+			if c, ok := big6(); ok {
+				d := c.e.utxo.Denomination
+				mk([]coin{c}, []uint8{d - 1, d - 2})
+			}
+		case 2: // 2 inputs (aggregated signature): a small, trimmable coin rides along with a big one
+			b, ok := big6()
+			if !ok {
+				continue
+			}
+			var small []coin
+			for _, c := range coins {
+				if c.e.utxo.Denomination <= types.MaxTrimDenomination && !s.used[string(c.e.key)] && c.key != b.key {
+					small = append(small, c)
+				}
+			}
+			if len(small) == 0 {
+				continue
+			}
+			// prefer a coin whose creation height is being trimmed in the next block (the adversarial timing)
+			pick := small[r.Intn(len(small))]
+			if r.Chance(60) {
+				for _, c := range small {
+					if s.height[string(c.e.key)]+trimDeps[c.e.utxo.Denomination] == nextNo {
+						pick = c
+					}
+				}
+			}
+			mk([]coin{b, pick}, []uint8{b.e.utxo.Denomination - 1})
+		case 3: // small coin alone (fee usually too low for the smallest ones: rejected by the pool)
+			for _, c := range coins {
+				d := c.e.utxo.Denomination
+				if d >= 3 && d <= 6 && !s.used[string(c.e.key)] {
+					mk([]coin{c}, []uint8{d - 1})
+					break
+				}
+			}
+		}
+	}
+	// Quai transfers between funded accounts
+	st, err := n.z.StateAt(n.z.Hc.CurrentHeader())
+	if err != nil && verbose {
+		fmt.Fprintln(os.Stderr, "  stateAt:", err)
+	}
+	if err == nil {
+		for i := range s.a.quaiAddrs {
+			if !s.funded[i] || !r.Chance(50) {
+				continue
+			}
+			ia, _ := s.a.quaiAddrs[i].InternalAndQuaiAddress()
+			bal := st.GetBalance(ia)
+			if verbose {
+				fmt.Fprintf(os.Stderr, "  quai acct %d balance %s nonce %d\n", i, bal, st.GetNonce(ia))
+			}
+			if bal.Cmp(new(big.Int).Mul(big.NewInt(7000), big.NewInt(1e18))) < 0 {
+				continue
+			}
+			nonce := st.GetNonce(ia)
+			if s.nonce[i] > nonce {
+				nonce = s.nonce[i]
+			}
+			to := s.a.quaiAddrs[(i+1)%len(s.a.quaiAddrs)]
+			gp := new(big.Int).Mul(n.z.Hc.CurrentHeader().BaseFee(), big.NewInt(3))
+			inner := &types.QuaiTx{ChainID: chainID, Nonce: nonce, GasPrice: gp, Gas: 21000, To: &to, Value: big.NewInt(int64(1 + r.Intn(1000000)))}
+			if s.spec.Kind == "lockup" && s.contract == nil && i == 0 {
+				// deploy a one-byte (STOP) contract so that coinbase lockups have an owner contract with code
+				// init code returning the one-byte runtime code STOP; trailing salt bytes are ground until the
+				// CREATE address lies in this zone's Quai ledger; the address must be in the access list
+				code := common.FromHex("6001600c60003960016000f300")
+				var caddr common.Address
+				for salt := 0; ; salt++ {
+					c := append(common.CopyBytes(code), byte(salt), byte(salt>>8), byte(salt>>16))
+					caddr = crypto.CreateAddress(s.a.quaiAddrs[i], nonce, c, loc)
+					if _, err := caddr.InternalAndQuaiAddress(); err == nil {
+						code = c
+						break
+					}
+				}
+				inner = &types.QuaiTx{ChainID: chainID, Nonce: nonce, GasPrice: gp, Gas: 2000000, To: nil, Value: big.NewInt(0), Data: code, AccessList: types.AccessList{{Address: caddr}}}
+				s.contract = &common.Address{}
+			}
+			tx, err := types.SignTx(types.NewTx(inner), types.LatestSigner(n.z.Config), s.a.quaiKeys[i])
+			if err != nil {
+				rep.Count("quai_sign_error")
+				continue
+			}
+			s.nonce[i] = nonce + 1
+			txs = append(txs, tx)
+		}
+	}
+	return txs
+}
+
+// ---------------- running one chain ----------------
+
+func coqBlk(ops []string, cands []string, trimmed []int, content [][2]int, size uint64, rootok bool) string {
+	tr := make([]string, len(trimmed))
+	for i, t := range trimmed {
+		tr[i] = fmt.Sprint(t)
+	}
+	ct := make([]string, len(content))
+	for i, c := range content {
+		ct[i] = fmt.Sprintf("(%d,%d)", c[0], c[1])
+	}
+	return fmt.Sprintf("mkBlk %s %s %s %s %d %s", hlib.CoqList(ops), hlib.CoqList(cands), hlib.CoqList(tr), hlib.CoqList(ct), size, hlib.CoqBool(rootok))
+}
+
+func runChain(spec ChainSpec, a *actors, tmp string) (res chainResult) {
+	defer func() {
+		if r := recover(); r != nil {
+			res.broken = fmt.Sprintf("panic: %v", r)
+			failCase(sigPanic, fmt.Sprintf("panic while running chain: %v", r), spec, 0, string(debug.Stack()))
+		}
+	}()
+	var nodes []*node
+	for i, k := range spec.Kinds {
+		n, err := newNode(k, tmp, int(spec.ID)*10+i, a)
+		if err != nil {
+			res.broken = "newNode: " + err.Error()
+			return
+		}
+		nodes = append(nodes, n)
+	}
+	defer func() {
+		for _, n := range nodes {
+			n.close()
+		}
+		runtime.GOMAXPROCS(runtime.NumCPU())
+	}()
+	prim := nodes[spec.Primary%len(nodes)]
+	sc := &scenario{r: hlib.NewRng(spec.Seed), a: a, spec: spec, height: map[string]uint64{}, used: map[string]bool{}, nonce: map[int]uint64{}, funded: map[int]bool{}}
+	if spec.Kind == "random" || spec.Kind == "lockup" {
+		sc.preferQi, sc.lockByte = sc.r.Bool(), uint8(sc.r.Intn(4))
+		prim.z.VerifC06SetMiner(sc.preferQi, sc.lockByte, nil)
+	}
+	ix := &indexer{keys: map[string]int{}, elems: map[common.Hash]int{}}
+	var backlog types.Transactions
+	parentContent := map[string]entry{} // primary's content before the block
+
+	for step := 0; step < spec.Len; step++ {
+		block, err := prim.z.VerifC06Assemble(true)
+		if err != nil {
+			res.broken = "assemble: " + errClass(err)
+			if verbose {
+				fmt.Fprintln(os.Stderr, "assemble:", err)
+			}
+			return
+		}
+		no := block.NumberU64(common.ZONE_CTX)
+		rep.Evaluations++
+		// ---- determinism monitor: the same block on the same parent state, several times, each backend ----
+		var ref *procObs
+		var refName string
+		var primObs *procObs
+		for _, n := range nodes {
+			for k := 0; k < spec.Reps; k++ {
+				runtime.GOMAXPROCS(gomax[k%len(gomax)])
+				var o *procObs
+				n.z.VerifC06Locked(func() { o = processOnce(n, block) })
+				if n == prim && k == 0 {
+					primObs = o
+				}
+				if strings.HasPrefix(o.err, "PANIC") {
+					failCase(sigPanic, "Process panicked: "+o.err, spec, no, n.name)
+				}
+				if ref == nil {
+					ref, refName = o, n.name
+					continue
+				}
+				if o.fingerprint() != ref.fingerprint() {
+					sig := sigDet
+					if n.name != refName {
+						sig = sigBackend
+					}
+					failCase(sig, fmt.Sprintf("Process of the same block on the same parent gave different results (%s run %d GOMAXPROCS=%d vs %s run 0): %s <> %s", n.name, k, gomax[k%len(gomax)], refName, o.fingerprint(), ref.fingerprint()), spec, no, n.name)
+				}
+			}
+		}
+		runtime.GOMAXPROCS(runtime.NumCPU())
+		if primObs == nil || primObs.err != "" || primObs.validate != "" {
+			failCase(sigReject, fmt.Sprintf("block assembled by the worker fails re-execution on %s: %s %s", prim.name, primObs.err, primObs.validate), spec, no, prim.name)
+			res.broken = "own block rejected"
+			return
+		}
+		// trim candidates, read the way TrimBlock reads them (before the block is written)
+		candKeys := map[string]bool{}
+		var coqCands []string
+		for den := uint8(0); den <= types.MaxTrimDenomination; den++ {
+			depth := trimDeps[den]
+			if no <= depth {
+				continue
+			}
+			target := rawdb.ReadCanonicalHash(prim.db, no-depth)
+			keys, _ := rawdb.ReadCreatedUTXOKeys(prim.db, target)
+			var cs []string
+			for _, k := range keys {
+				if k[len(k)-1] != den {
+					continue
+				}
+				k = k[:len(k)-1]
+				unlocked := false
+				if e, ok := parentContent[string(k)]; ok && e.utxo != nil && e.utxo.Lock.Sign() == 0 && e.utxo.Denomination == den {
+					unlocked = true
+				}
+				candKeys[string(k)] = true
+				cs = append(cs, fmt.Sprintf("(%d,%s)", ix.key(k), hlib.CoqBool(unlocked)))
+			}
+			if len(cs) > 0 {
+				coqCands = append(coqCands, hlib.CoqList(cs))
+			}
+		}
+		// ---- append on every backend ----
+		for _, n := range nodes {
+			if err := n.z.VerifC06Append(block); err != nil {
+				failCase(sigReject, fmt.Sprintf("block %d assembled on %s is rejected by the node on %s: %s", no, prim.name, n.name, errClass(err)), spec, no, n.name)
+				if verbose {
+					fmt.Fprintln(os.Stderr, "append:", n.name, err)
+				}
+				res.broken = "append rejected"
+				return
+			}
+		}
+		res.nBlocks++
+		// ---- commitment monitors on every backend ----
+		var primScan []entry
+		var refScan string
+		for _, n := range nodes {
+			es := scan(n.db)
+			if n == prim {
+				primScan = es
+			}
+			// double removals in this block: outpoints both spent by the block and trimmed by it
+			spent, _ := rawdb.ReadSpentUTXOs(n.db, block.Hash())
+			trimmed, _ := rawdb.ReadTrimmedUTXOs(n.db, block.Hash())
+			sp := map[string]bool{}
+			for _, s := range spent {
+				sp[string(rawdb.UtxoKey(s.TxHash, s.Index))] = true
+			}
+			nd := 0
+			for _, t := range trimmed {
+				if sp[string(rawdb.UtxoKey(t.TxHash, t.Index))] {
+					n.dbl = append(n.dbl, types.UTXOHash(t.TxHash, t.Index, t.UtxoEntry))
+					nd++
+				}
+			}
+			if nd > 0 && n == prim {
+				res.f5Blocks++
+				failCase(sigF5, fmt.Sprintf("block %d spends %d output(s) that Finalize/TrimBlock also trims in the same block (TrimBlock reads the committed database, where they are still present): their hashes are removed twice from the multiset and the set size is decremented twice; header UTXORoot no longer equals the MuHash of the database content", no, nd), spec, no, n.name)
+			}
+			stored := rawdb.ReadMultiSet(n.db, block.Hash())
+			if stored == nil || stored.Hash() != block.UTXORoot() {
+				failCase(sigRootHdr, fmt.Sprintf("stored multiset of block %d on %s does not hash to the header UTXORoot", no, n.name), spec, no, n.name)
+			}
+			if exp := muOf(es, n.dbl); exp != block.UTXORoot() {
+				failCase(sigRootScan, fmt.Sprintf("block %d on %s: header UTXORoot is not the MuHash of the %d live 'ut'/'cl' entries (after accounting for %d recorded double removals)", no, n.name, len(es), len(n.dbl)), spec, no, n.name)
+			}
+			size := rawdb.ReadUTXOSetSize(n.db, block.Hash())
+			if size != uint64(len(es))-uint64(len(n.dbl)) {
+				failCase(sigSize, fmt.Sprintf("block %d on %s: stored UTXO set size %d, database holds %d entries (%d recorded double removals)", no, n.name, size, len(es), len(n.dbl)), spec, no, n.name)
+			}
+			// state reopens at the header roots
+			func() {
+				defer func() {
+					if r := recover(); r != nil {
+						failCase(sigState, fmt.Sprintf("reopening state of block %d on %s panicked: %v", no, n.name, r), spec, no, n.name)
+					}
+				}()
+				st, err := n.z.StateAt(block)
+				if err != nil {
+					failCase(sigState, fmt.Sprintf("state at EVMRoot/EtxSetRoot of block %d does not open on %s: %s", no, n.name, errClass(err)), spec, no, n.name)
+					return
+				}
+				if st.IntermediateRoot(true) != block.EVMRoot() || st.ETXRoot() != block.EtxSetRoot() {
+					failCase(sigState, fmt.Sprintf("state reopened at block %d on %s has other roots than the header", no, n.name), spec, no, n.name)
+				}
+				for _, qa := range a.quaiAddrs {
+					ia, _ := qa.InternalAndQuaiAddress()
+					st.GetBalance(ia)
+				}
+				if _, err := st.GetOldestIndex(); err != nil {
+					failCase(sigState, fmt.Sprintf("ETX queue of block %d unreadable on %s", no, n.name), spec, no, n.name)
+				}
+			}()
+			// identical content on every backend
+			h := sha256.New()
+			for _, e := range es {
+				h.Write(e.key)
+				h.Write(e.val)
+			}
+			fp := fmt.Sprintf("%x|%d|%x", h.Sum(nil), size, stored.Serialize())
+			if refScan == "" {
+				refScan = fp
+			} else if fp != refScan {
+				failCase(sigScanDiff, fmt.Sprintf("after block %d the 'ut'/'cl' content, set size or multiset of %s differs from %s", no, n.name, nodes[0].name), spec, no, n.name)
+			}
+		}
+		// ---- Coq block record from the primary ----
+		rec := primObs.rec
+		trimmedRec, _ := rawdb.ReadTrimmedUTXOs(prim.db, block.Hash())
+		txOps := rec.ops
+		if rec.tutxoAt >= 0 {
+			txOps = rec.ops[:rec.tutxoAt]
+		}
+		// the last len(trimmed) deletes before the trimmed-utxos record are TrimBlock's own batch.Delete calls
+		if T := len(trimmedRec); T <= len(txOps) {
+			txOps = txOps[:len(txOps)-T]
+		} else {
+			rep.Note(fmt.Sprintf("chain %d block %d: trimmed record longer than batch deletes", spec.ID, no))
+		}
+		var coqOps []string
+		for _, op := range txOps {
+			k := ix.key(op.key)
+			if op.del {
+				coqOps = append(coqOps, fmt.Sprintf("Spend %d", k))
+				continue
+			}
+			h, _, ok := elemHash(op.key, op.val)
+			if !ok {
+				rep.Note("undecodable put in batch")
+				continue
+			}
+			if op.key[0] == 'u' {
+				coqOps = append(coqOps, fmt.Sprintf("Create %d %d", k, ix.elem(h)))
+			} else {
+				coqOps = append(coqOps, fmt.Sprintf("Update %d %d", k, ix.elem(h)))
+			}
+		}
+		var trimmedIdx []int
+		spentCand, trimmedSpentCand := 0, 0
+		trimmedSet := map[string]bool{}
+		for _, t := range trimmedRec {
+			k := rawdb.UtxoKey(t.TxHash, t.Index)
+			trimmedIdx = append(trimmedIdx, ix.key(k))
+			trimmedSet[string(k)] = true
+		}
+		sort.Ints(trimmedIdx)
+		for _, op := range txOps {
+			if op.del && candKeys[string(op.key)] {
+				if e, ok := parentContent[string(op.key)]; ok && e.utxo != nil && e.utxo.Lock.Sign() == 0 {
+					spentCand++
+					if trimmedSet[string(op.key)] {
+						trimmedSpentCand++
+					}
+				}
+			}
+		}
+		if spentCand > 0 {
+			// the observation that decides which trim view the current source implements
+			v := "AfterOps"
+			if trimmedSpentCand == spentCand {
+				v = "ParentDb"
+			} else if trimmedSpentCand != 0 {
+				v = "mixed"
+			}
+			if res.trimView == "" {
+				res.trimView = v
+			} else if res.trimView != v {
+				res.trimView = "mixed"
+			}
+			rep.Count("block_spends_trim_candidate")
+		}
+		content := make([][2]int, 0, len(primScan))
+		newParent := map[string]entry{}
+		for _, e := range primScan {
+			content = append(content, [2]int{ix.key(e.key), ix.elem(e.hash)})
+			newParent[string(e.key)] = e
+			if _, ok := sc.height[string(e.key)]; !ok {
+				sc.height[string(e.key)] = no
+			}
+		}
+		sort.Slice(content, func(i, j int) bool { return content[i][0] < content[j][0] })
+		rootok := muOf(primScan, nil) == block.UTXORoot()
+		res.blocks = append(res.blocks, coqBlk(coqOps, coqCands, trimmedIdx, content, rawdb.ReadUTXOSetSize(prim.db, block.Hash()), rootok))
+		parentContent = newParent
+		// distribution
+		nCl := 0
+		for _, e := range primScan {
+			if !e.ut {
+				nCl++
+			}
+		}
+		rep.Count(fmt.Sprintf("block_ops_%s", bucket(len(txOps))))
+		rep.Count(fmt.Sprintf("block_trimmed_%s", bucket(len(trimmedRec))))
+		if nCl > 0 {
+			rep.Count("block_with_live_lockups")
+		}
+		for _, tx := range block.Transactions() {
+			switch tx.Type() {
+			case types.QiTxType:
+				rep.Count(fmt.Sprintf("tx_qi_%din", len(tx.TxIn())))
+			case types.QuaiTxType:
+				if tx.To() == nil {
+					rep.Count("tx_quai_create")
+				} else {
+					rep.Count("tx_quai_transfer")
+				}
+			case types.ExternalTxType:
+				rep.Count(fmt.Sprintf("tx_etx_type%d", tx.EtxType()))
+			}
+		}
+		if len(txOps) > 0 || len(trimmedRec) > 0 {
+			rep.Nontrivial(fmt.Sprintf("%s|%d|%d|%d|%v", spec.Kind, len(coqOps), len(trimmedRec), len(coqCands), rootok))
+		}
+		if verbose {
+			for _, e := range block.OutboundEtxs() {
+				fmt.Fprintf(os.Stderr, "   out etx type %d to %s sender %s datalen %d value %s\n", e.EtxType(), e.To().Hex(), e.ETXSender().Hex(), len(e.Data()), e.Value())
+			}
+			fmt.Fprintf(os.Stderr, "chain %d block %d txs %d ops %d trimmed %d content %d size %d rootok %v\n", spec.ID, no, len(block.Transactions()), len(txOps), len(trimmedRec), len(primScan), rawdb.ReadUTXOSetSize(prim.db, block.Hash()), rootok)
+		}
+		// contract deployed?
+		if sc.contract != nil && !sc.deployed {
+			for _, r := range rawdb.ReadReceipts(prim.db, block.Hash(), no, prim.z.Config) {
+				if verbose && r.Type == types.QuaiTxType {
+					fmt.Fprintf(os.Stderr, "  receipt type %d status %d gas %d contract %s\n", r.Type, r.Status, r.GasUsed, r.ContractAddress.Hex())
+				}
+				if r.ContractAddress != (common.Address{}) && r.Status == types.ReceiptStatusSuccessful {
+					ca := r.ContractAddress
+					sc.contract = &ca
+					sc.deployed = true
+					rep.Count("contract_deployed")
+				}
+			}
+		}
+		// ---- what the dominant chain delivers to the child, and new pool transactions ----
+		backlog = append(backlog, block.OutboundEtxs()...)
+		inb := sc.inbound(no)
+		if sc.r.Chance(75) || spec.Kind == "f5" {
+			inb = append(backlog, inb...)
+			backlog = nil
+		}
+		if len(inb) > 0 {
+			for _, n := range nodes {
+				rawdb.WriteInboundEtxs(n.db, block.Hash(), inb)
+			}
+		}
+		prim.z.VerifC06ResetPool()
+		if sc.deployed && !sc.minerSet {
+			prim.z.VerifC06SetMiner(sc.preferQi, sc.lockByte, sc.contract)
+			sc.minerSet = true
+			rep.Count("miner_uses_lockup_contract")
+		}
+		txs := sc.poolTxs(prim, primScan, no+1)
+		nq := 0
+		for _, tx := range txs {
+			if err := prim.z.Pool.AddLocal(tx); err != nil {
+				rep.Count("pool_reject")
+				if verbose {
+					fmt.Fprintln(os.Stderr, " pool reject:", err)
+				}
+			} else {
+				rep.Count("pool_accept")
+				if tx.Type() == types.QuaiTxType {
+					nq++
+				}
+			}
+		}
+		if nq > 0 { // Quai transactions become pending asynchronously
+			dl := time.Now().Add(300 * time.Millisecond)
+			for time.Now().Before(dl) {
+				if p, _, _ := prim.z.Pool.Stats(); p >= nq {
+					break
+				}
+				time.Sleep(2 * time.Millisecond)
+			}
+		}
+	}
+	return
+}
+
+func bucket(n int) string {
+	switch {
+	case n == 0:
+		return "0"
+	case n <= 2:
+		return "1-2"
+	case n <= 5:
+		return "3-5"
+	case n <= 10:
+		return "6-10"
+	}
+	return "11+"
+}
+
+// ---------------- MuHash algebra monitor (model-independent) ----------------
+
+func muLaws(r *hlib.Rng, rounds int) {
+	for i := 0; i < rounds; i++ {
+		n := 1 + r.Intn(8)
+		var xs [][]byte
+		for j := 0; j < n; j++ {
+			xs = append(xs, r.Bytes(32))
+		}
+		base := multiset.New()
+		base.Add(r.Bytes(32))
+		a, b := base.Clone(), base.Clone()
+		sgn := make([]bool, n)
+		for j := range xs {
+			sgn[j] = r.Bool()
+			if sgn[j] {
+				a.Add(xs[j])
+			} else {
+				a.Remove(xs[j])
+			}
+		}
+		perm := make([]int, n)
+		for j := range perm {
+			perm[j] = j
+		}
+		for j := n - 1; j > 0; j-- {
+			k := r.Intn(j + 1)
+			perm[j], perm[k] = perm[k], perm[j]
+		}
+		for _, j := range perm {
+			if sgn[j] {
+				b.Add(xs[j])
+			} else {
+				b.Remove(xs[j])
+			}
+		}
+		if a.Hash() != b.Hash() {
+			rep.Fail(sigMuLaw, "MuHash depends on the order of Add/Remove", map[string]any{"id": 0, "kind": "mulaw", "round": i})
+		}
+		for j := range xs { // inverse
+			if sgn[j] {
+				a.Remove(xs[j])
+			} else {
+				a.Add(xs[j])
+			}
+		}
+		if a.Hash() != base.Hash() {
+			rep.Fail(sigMuLaw, "Remove is not the inverse of Add", map[string]any{"id": 0, "kind": "mulaw", "round": i})
+		}
+		c, err := multiset.FromBytes(b.Serialize())
+		if err != nil || c.Hash() != b.Hash() {
+			rep.Fail(sigMuLaw, "multiset serialization does not round-trip", map[string]any{"id": 0, "kind": "mulaw", "round": i})
+		}
+		rep.Count("mulaw_rounds")
+	}
+}
+
+// ---------------- main ----------------
+
+func setSchedule() {
+	// Test-network schedule (ZONE_RECIPE): the code paths are unchanged, only the heights are scaled down.
+	params.TimeToStartTx = 0
+	params.ControllerKickInBlock = 0
+	params.CoinbaseLockupPrecompileKickInHeight = 0
+	params.ConversionLockPeriod = 4
+	params.CoinbaseEpochBlocks = 5 // must stay below the first unlock height (mainnet: 50000 < kick-in height + lock), else AddNewLock's tranche height is 0 = "no record"
+	params.LockupByteToBlockDepth = [4]uint64{4, 6, 8, 10}
+	types.TrimDepths = map[uint8]uint64{}
+	for k, v := range trimDeps {
+		types.TrimDepths[k] = v
+	}
 }
 
 func main() {
-	logger := hlib.QuietLogs()
+	fl := hlib.ParseFlags()
+	logger = hlib.QuietLogs()
 	if os.Getenv("VLOG") != "" {
 		log.Global.SetOutput(os.Stderr)
 	}
-	params.TimeToStartTx = 0
-	types.TrimDepths = map[uint8]uint64{0: 3, 1: 4, 2: 5, 3: 6, 4: 7, 5: 8}
-	db := rawdb.NewMemoryDatabase(logger)
-	loc := common.Location{0, 0}
-	r := hlib.NewRng(1)
-	cb := common.HexToAddress("0x0000000000000000000000000000000000000001", loc)
-	k1, a1 := grind(r, loc, true)
-	_, a2 := grind(r, loc, true)
-	fmt.Println(a1.Hex(), a2.Hex())
-	z, err := core.VerifNewZone(db, core.VerifZoneOptions{Location: loc, QuaiCoinbase: cb, QiCoinbase: a2, GenesisTime: 1000}, logger)
-	if err != nil {
-		fmt.Println("newzone:", err)
-		return
-	}
-	foreign := common.HexToAddress("0x0100000000000000000000000000000000000007", common.Location{0, 1})
-	var pending types.Transactions
-	type op struct {
-		h   common.Hash
-		idx uint16
-		den uint8
-		at  uint64
-	}
-	var mine []op
-	for i := 0; i < 30; i++ {
-		b, err := z.Assemble(true)
-		if err != nil {
-			fmt.Println("assemble:", i, err)
-			return
+	setSchedule()
+	rep = hlib.NewReport("C06", "a block is non-trivial if its batch creates/spends/updates at least one 'ut'/'cl' entry or Finalize trims at least one output; fingerprint = (chain kind, #ops, #trimmed, #candidate lists, root-matches)")
+	rep.Note("test-network schedule: TimeToStartTx=0, ControllerKickInBlock=0, CoinbaseLockupPrecompileKickInHeight=0, ConversionLockPeriod=4, CoinbaseEpochBlocks=5, LockupByteToBlockDepth={4,6,8,10}, TrimDepths={0:3,1:4,2:5,3:6,4:7,5:8}")
+	a := newActors()
+	tmp, _ := os.MkdirTemp("", "c06_")
+	defer os.RemoveAll(tmp)
+	allKinds := []string{"memorydb", "leveldb", "pebble"}
+
+	var specs []ChainSpec
+	if fl.Replay != "" {
+		var s ChainSpec
+		hlib.ReadReplayCase(fl.Replay, &s)
+		if s.Kind == "mulaw" || s.Kind == "" {
+			muLaws(hlib.NewRng(fl.Seed), 50)
+			s = ChainSpec{ID: 1, Seed: 1, Kind: "f5", Len: 14, Primary: 0, Kinds: allKinds, Reps: 3}
 		}
-		fmt.Println("assembled", b.NumberU64(common.ZONE_CTX), "out", len(b.OutboundEtxs()), "txs", len(b.Transactions()), "gaslimit", b.GasLimit(), "gasused", b.GasUsed(), "basefee", b.BaseFee())
-		if err := z.Append(b); err != nil {
-			fmt.Println("append:", i, err)
-			return
+		if len(s.Kinds) == 0 {
+			s.Kinds = allKinds
 		}
-		pending = append(pending, b.OutboundEtxs()...)
-		// foreign Qi etx
-		for d := 0; d < 3; d++ {
-			den := uint8(r.Intn(15))
-			if d == 0 {
-				den = 5
+		if s.Reps == 0 {
+			s.Reps = 3
+		}
+		specs = []ChainSpec{s}
+	} else {
+		reps := 6
+		length := 28
+		if fl.Tier == "thorough" {
+			length = 40
+		}
+		// fixed corpus first: the known finding, a chain that never spends a trimmable output, one lockup chain per primary
+		specs = append(specs, ChainSpec{ID: 1, Seed: 1, Kind: "f5", Len: 14, Primary: 0, Kinds: allKinds, Reps: 3})
+		specs = append(specs, ChainSpec{ID: 2, Seed: 2, Kind: "clean", Len: 20, Primary: 1, Kinds: allKinds, Reps: reps})
+		specs = append(specs, ChainSpec{ID: 3, Seed: 3, Kind: "lockup", Len: length, Primary: 2, Kinds: allKinds, Reps: reps})
+		r := hlib.NewRng(fl.Seed)
+		for i := 0; i < fl.N; i++ {
+			kind := "random"
+			if r.Chance(30) {
+				kind = "lockup"
 			}
-			oh := common.BytesToHash(r.Bytes(32))
-			etx := types.NewTx(&types.ExternalTx{To: &a1, Sender: foreign, Value: big.NewInt(int64(den)), EtxType: types.DefaultType, OriginatingTxHash: oh, ETXIndex: uint16(d), Gas: params.TxGas})
-			pending = append(pending, etx)
-			mine = append(mine, op{oh, uint16(d), den, b.NumberU64(common.ZONE_CTX) + 1})
+			specs = append(specs, ChainSpec{ID: uint64(4 + i), Seed: r.Next() % 1000000, Kind: kind, Len: 12 + r.Intn(length-11), Primary: r.Intn(3), Kinds: allKinds, Reps: reps})
 		}
-		rawdb.WriteInboundEtxs(db, b.Hash(), pending)
-		pending = nil
-		ms, n := scan(db)
-		tr, _ := rawdb.ReadTrimmedUTXOs(db, b.Hash())
-		sp, _ := rawdb.ReadSpentUTXOs(db, b.Hash())
-		fmt.Println(" utxo set size", rawdb.ReadUTXOSetSize(db, b.Hash()), "scan", n, "root==scan", ms.Hash() == b.UTXORoot(), "stored==root", rawdb.ReadMultiSet(db, b.Hash()).Hash() == b.UTXORoot(), "trimmed", len(tr), "spent", len(sp))
-		// try spend
-		if i >= 3 {
-			for j, o := range mine {
-				u := rawdb.GetUTXO(db, o.h, o.idx)
-				if u == nil || u.Denomination != 5 || o.at+8 != b.NumberU64(common.ZONE_CTX)+1 {
-					continue
-				}
-				chainID := z.Config.ChainID
-				signer := types.NewSigner(chainID, loc)
-				qt := &types.QiTx{ChainID: chainID,
-					TxIn:  types.TxIns{{PreviousOutPoint: types.OutPoint{TxHash: o.h, Index: o.idx}, PubKey: k1.PubKey().SerializeUncompressed()}},
-					TxOut: types.TxOuts{{Denomination: u.Denomination - 1, Address: a2.Bytes(), Lock: big.NewInt(0)}}}
-				tx := types.NewTx(qt)
-				sig, err := schnorr.Sign(k1, signer.Hash(tx).Bytes())
-				if err != nil {
-					panic(err)
-				}
-				qt.Signature = sig
-				tx = types.NewTx(qt)
-				errs := z.Pool.AddLocal(tx)
-				fmt.Println("  spend", j, u.Denomination, errs)
-				mine[j].den = 255
-				mine = append(mine[:j], mine[j+1:]...)
-				break
+		muLaws(hlib.NewRng(fl.Seed), 200)
+	}
+
+	// run; the trim view of the current source is what the targeted chain (and any other chain that hits
+	// the situation) shows
+	type done struct {
+		spec ChainSpec
+		res  chainResult
+	}
+	var all []done
+	view := ""
+	for _, s := range specs {
+		t0 := time.Now()
+		res := runChain(s, a, tmp)
+		if verbose {
+			fmt.Fprintf(os.Stderr, "chain %d kind %s: %d blocks, f5 %d, view %q, broken %q, %.1fs\n", s.ID, s.Kind, res.nBlocks, res.f5Blocks, res.trimView, res.broken, time.Since(t0).Seconds())
+		}
+		rep.Count("chain_" + s.Kind)
+		if res.broken != "" {
+			rep.Count("chain_broken:" + res.broken)
+		}
+		if res.trimView != "" {
+			if view == "" {
+				view = res.trimView
+			} else if view != res.trimView {
+				view = "mixed"
 			}
 		}
+		all = append(all, done{s, res})
 	}
-	_ = bytes.Compare
+	if view == "" {
+		rep.Note("no block spent a trim candidate: trim view undetermined, ParentDb assumed")
+		view = "ParentDb"
+	}
+	if view == "mixed" {
+		rep.Note("trim view differs between blocks: some spent candidates are trimmed, some are not; ParentDb used, expect model mismatches")
+		view = "ParentDb"
+	}
+	rep.Note("trim view observed on this source: " + view)
+	cw := hlib.NewCaseWriter(fl.Out, "From Coq Require Import List NArith Bool.\nFrom GQ Require Import Model.C06.\nImport ListNotations.\nLocal Open Scope N_scope.\n", "C06.case", 4)
+	for _, d := range all {
+		if len(d.res.blocks) == 0 {
+			continue
+		}
+		term := fmt.Sprintf("(%d, %s, [\n  %s])", d.spec.ID, view, strings.Join(d.res.blocks, ";\n  "))
+		js := map[string]any{"id": d.spec.ID, "seed": d.spec.Seed, "kind": d.spec.Kind, "len": d.spec.Len, "primary": d.spec.Primary, "backends": d.spec.Kinds, "reps": d.spec.Reps, "blocks": d.res.nBlocks, "f5_blocks": d.res.f5Blocks}
+		cw.Add(term, js)
+		rep.Sample(js)
+		rep.TracesValidated++
+	}
+	cw.Close()
+	rep.Write(fl.Out)
+	_ = hex.EncodeToString
 }
